@@ -141,6 +141,30 @@ D.update({
  "C20-r6-m3": ("C20", "the first timed-out definition is stored in a OnceLock with `set(..).unwrap()`", "two time-outs in one process (value and degree of one definition, or two definitions)"),
 })
 
+D.update({
+ "C01-r7-m1": ("C01", "SARIF artifact URIs are percent-encoded by a helper that advances one byte past the escaped character", "--sarif-file and a path with a multi-byte character that is not alphanumeric (an en dash, a typographic apostrophe, a euro sign)"),
+ "C01-r7-m2": ("C01", "a debug! line whose argument takes the maximum over the lines of the file and unwraps it", "RUST_LOG enabling debug for the parser and a zero-length file among those read"),
+ "C01-r7-m3": ("C01", "the `.circom` extension test becomes case-insensitive through `to_str().unwrap()`", "a file whose extension is not valid UTF-8 in an input directory, as an input or as -L argument"),
+ "C02-r7-m1": ("C02", "write failures on stdout are logged and ignored; the count behind summary and exit status only counts what was emitted", "a dead stdout (full disk, reader gone) next to any failure: exit status 0"),
+ "C02-r7-m2": ("C02", "the visited set is keyed by the lower-cased path", "two named files whose paths differ in letter case only; the one given first is never opened"),
+ "C02-r7-m3": ("C02", "a `//` comment is blanked in one go: the length is counted in bytes, the skip in characters", "a line comment with multi-byte characters (CJK): the following source text disappears from the parser's input"),
+ "C03-r7-m1": ("C03", "entries of a directory input are classified with DirEntry::file_type(), which does not follow symbolic links", "a directory input that contains a symbolic link to a file (or directory) with findings"),
+ "C03-r7-m2": ("C03", "the SARIF label check rejects a range that ends at the last byte of the file; the whole conversion then fails quietly", "--sarif-file, a last line without newline and a finding that reaches the last token"),
+ "C03-r7-m3": ("C03", "the SARIF file is written to the temp directory and renamed into place", "a temp directory on another file system than the target (EXDEV): no file, or a stale one"),
+ "C14-r7-m1": ("C14", "a trace! line calls get_next_version(), which allocates a version", "trace logging enabled for the SSA module and a local array read element-wise"),
+ "C14-r7-m2": ("C14", "phis only for variables live on entry to some block, with liveness adding a statement's writes to the kill set before looking at its reads", "a variable whose every read is in a self-updating statement (`x = x + 1`, `a[i] = v`) and which is assigned in a loop or one branch"),
+ "C14-r7-m3": ("C14", "a block without statements returns before its versions are pushed into the successors' phis", "an if / else one branch of which is empty (commented-out code) while the other assigns something used afterwards"),
+ "C17-r7-m1": ("C17", "inside a block comment `*` followed by any character is blanked by two spaces, whatever the character's length", "a `*` directly in front of a multi-byte character in a /* */ comment: every later position in the file shifts"),
+ "C17-r7-m2": ("C17", "the visited set is keyed by the lower-cased path", "two named files whose paths differ in letter case only: the input order decides which one is analysed"),
+ "C17-r7-m3": ("C17", "SARIF artifact URIs are percent-encoded by chained String::replace calls in HashMap order", "--sarif-file and a path with a blank, `#`, `?`, `[` or `]`: `%20` or `%2520` by hash order"),
+ "C19-r7-m1": ("C19", "visited and named files are remembered by their lower-cased canonical path", "two reachable or named files whose paths differ in letter case only"),
+ "C19-r7-m2": ("C19", "a leading byte-order mark is stripped before parsing while the file library keeps the original text", "a named file that starts with EF BB BF and has an unresolvable include: the error is located three bytes early"),
+ "C19-r7-m3": ("C19", "a source text whose digest was seen before is skipped, before its includes are resolved", "two byte-identical files in two directories whose relative include leads to different files"),
+ "C20-r7-m1": ("C20", "Debug of a substitution prints the propagated constant with .expect(), testing the expression but reading the statement", "debug logging enabled and a value cut in the one-pass window after a constant right-hand side got its value"),
+ "C20-r7-m2": ("C20", "the constant-condition pass compares two known operands itself, with plain integer ordering, when the comparison has no value yet", "a value cut between the last operand and the comparison, and an ordering comparison with one negative constant"),
+ "C20-r7-m3": ("C20", "both fixpoint loops become a work list drained in HashSet order, the clock checked after each block", "hash order and a degree cut together, with a local array assigned in one block and updated in a nested later one"),
+})
+
 matrix = {}
 mp = "/verif/seeded/MATRIX.txt"
 if os.path.exists(mp):
